@@ -16,7 +16,7 @@ const PropertyInfo kInfo = {
     "address: plain valid STORE (3/8), STORE with one varied admission field, streamed FETCH of a local chunk, clock advance. Varied fields: PAYLOAD-LENGTH in "
     "{cap-1, cap, cap+1 without body, cap+1 with body, 2^63, 2^64-1, 2^64, non-numeric, negative} (no body byte is sent when over the cap); TTL in {absent, min, max, "
     "min-1, max+1, mid, 0, 2^63, 2^64-1, abc, 12x, -5, empty}; STORE-POW nonce in {valid, valid for the raw / another filename only, valid for size+1 only, valid for "
-    "another payload only, missing, malformed, random, invalid by construction} with PATH in {absent, plain, nested dirs, absolute, trailing slash, '.', '..', 300-byte "
+    "another payload only, missing, malformed, random, invalid by construction, one bit short of the target} with PATH in {absent, plain, nested dirs, absolute, trailing slash, '.', '..', 300-byte "
     "name, blanks and colon}; every request carries a different unauthenticated TOKEN, a shared one, an empty one or none; advances in {to the oldest accepted "
     "STORE/FETCH + 30 s exactly, -1 ns, +1 ns, 30 s, 30 s + 1 ns, ms, 1..29 s}. Oracle: a STORE is accepted only if declared length <= cap and TTL in [min,max] and "
     "(difficulty 0 or the reference digest sha256(sha256(payload) || size || len(name) || name || nonce) has >= difficulty leading zero bits for the sanitised name); an "
@@ -249,7 +249,7 @@ void run_case(Ctx& c) {
         {
             bool send = difficulty != 0 || dim == 3;  // no STORE-POW header on plain requests when PoW is off
             std::uint64_t nonce = 0;
-            static const unsigned kPv[] = {0, 0, 1, 2, 3, 4, 5, 6, 7, 1};
+            static const unsigned kPv[] = {0, 0, 1, 2, 3, 4, 5, 6, 7, 8};
             unsigned pv = dim == 3 ? kPv[var % 10] : 0;
             const std::uint64_t start = pg.next() >> 8;
             switch (pv) {
@@ -279,6 +279,7 @@ void run_case(Ctx& c) {
                 case 5: { static const char* bad[] = {"abc", "", "-1", "12x", "18446744073709551616"}; pow_text = bad[r.a(4) % 5]; pow_ok = difficulty == 0; q.headers.push_back({"STORE-POW", pow_text}); send = false; break; }
                 case 6: nonce = pg.next(); break;
                 case 7: nonce = difficulty ? ctl::ref_find_nonce(real, difficulty, start, nullptr, true) : pg.next(); break;
+                case 8: nonce = difficulty ? ctl::ref_find_near_miss(real, difficulty, start) : pg.next(); if (difficulty) c.nt("pow_nonce_one_bit_short"); break;
             }
             if (send) {
                 pow_ok = difficulty == 0 || ctl::ref_store_pow_zero_bits(real.id, real.size, real.name, nonce) >= difficulty;
